@@ -40,21 +40,22 @@ class C20(Prop):
                  "functions) + translator-generated option macros + model/implementation correspondence on the real driver")
     level_text = ("Lean 4 theorems about an executable model of give_uid_to_object, the euid tests of load_object/clone_object "
                   "(master exemption), f_seteuid, f_export_uid, f_getuid/f_geteuid and reload_object: for every history of "
-                  "load/clone/seteuid/export_uid/destruct/reload_object by any objects and every master policy the "
+                  "load/clone/seteuid/export_uid/destruct/reload_object by any objects (also from inside create() of objects under "
+                  "construction, also of virtual objects made by master::compile_object) and every master policy the "
                   "specification oracle judgeEv accepts the model's event trace; the model is tied to the source by the "
                   "regenerated AUTO_TRUST_BACKBONE/AUTO_SETEUID options and by running the real driver (ASan+UBSan) with a "
                   "policy-switchable logging master and the model on the same generated histories; the same oracle judges "
                   "every implementation trace")
     level_note = ("trusted: Lean kernel; extract.py; the correspondence harness (differential, only the generated histories); "
                   "master applies are oracle functions (a master that calls back into the acting object during an apply is not "
-                  "modelled); virtual objects, master/simul_efun reload and function-pointer geteuid are not modelled")
+                  "modelled); master/simul_efun reload and function-pointer geteuid are not modelled")
     rule = ("cases = corpus + known-finding inputs + boundary list + seeded random histories of load/clone/seteuid(string|int)/"
             "export_uid/destruct/reload_object performed by the master and by objects under five directories whose "
             "creator_file answer (own name, other user's name, backbone uid, root uid, NONAME, empty string, int, array, 0, "
             "runtime error) and valid_seteuid verdicts (1, 0, other ints, string, array, 0, runtime error; per object and uid) "
             "are switched during the case; a case is non-trivial when its trace has >= 2 lines; distinct = distinct "
             "canonical implementation trace")
-    not_covered = ["virtual objects (compile_object) keep the uids of the object the master returned; not modelled",
+    not_covered = ["the branch of clone_object that re-uses an unreferenced virtual object instead of asking compile_object again (ob->ref == 1) cannot occur with registered objects and is not modelled",
                    "destruct/reload of the master or simul_efun object (set_master on reload) is not modelled; the model's master is loaded once",
                    "a master apply that calls back into the creating object (e.g. makes it seteuid(0) during creator_file) is not modelled",
                    "the simul_efun object has uid NONAME / euid 0 and no exemption in load_object/clone_object; it is not an actor in the harness",
@@ -188,6 +189,32 @@ class C20(Prop):
                                 "do m clone,c1,/c20/u1/a", "do c1 load,/c20/u2/b", "do m clone,c1,/c20/u1/b"])
         mk("nested-reload-reruns", ["script /c20/u1/a seteuid,s:u1;clone,c1,/c20/u1/b", "do m load,/c20/u1/a", "do m reload,u1a",
                                     "script /c20/u1/a -", "do m reload,u1a", "script /c20/u1/a load,/c20/u1/c", "do m reload,u1a"])
+        # ---- virtual objects (master::compile_object clones a template; the driver renames the clone) ------------
+        mk("virtual-load-clone", ["pol co u1 t:/c20/u2/a", "do m load,/c20/u1/a", "do m load,/c20/u1/v1", "do m load,/c20/u1/v1",
+                                  "do u1a load,/c20/u1/v1", "do u1a load,/c20/u1/v2", "do u1a clone,c1,/c20/u1/v1",
+                                  "do u1a seteuid,s:u1", "do u1a clone,c1,/c20/u1/v1", "do u1a clone,c2,/c20/u1/v3",
+                                  "do u1a load,/c20/u2/v1", "pol co u2 i:7", "do u1a load,/c20/u2/v1", "pol co u2 err",
+                                  "do u1a load,/c20/u2/v1", "do u1a clone,c3,/c20/u2/v1", "pol co u2 none", "do u1a clone,c3,/c20/u2/v1",
+                                  "do m dest,v1", "do m load,/c20/u1/v1", "do m reload,v2", "pol co u1 -", "do m clone,c4,/c20/u1/v1",
+                                  "do m load,/c20/u1/v9"])
+        # the class of the round-3 breaking change: an euid-0 object clones an already loaded virtual object
+        mk("virtual-clone-noeuid", ["pol co u1 t:/c20/u2/a", "do m load,/c20/u1/v1", "do m load,/c20/u1/a",
+                                    "do u1a clone,c1,/c20/u1/v1", "do u1a load,/c20/u1/v1", "do u1a clone,c1,/c20/u1/v2",
+                                    "do v1 clone,c2,/c20/u1/v1", "do v1 seteuid,s:x9", "do v1 clone,c2,/c20/u1/v1"])
+        mk("virtual-template-scripts", ["script /c20/u2/a# seteuid,s:u2;load,/c20/u2/b;clone,c1,/c20/u2/c",
+                                        "script /c20/u2/b load,/c20/root/v3", "pol co u1 t:/c20/u2/a", "pol co root t:/c20/root/a", "pol cf u2 s:Root",
+                                        "do m load,/c20/u1/v1", "pol cf u2 s:Backbone", "do m clone,c5,/c20/u1/v1",
+                                        "do m seteuid,i:0", "do m load,/c20/u1/v4"])
+        mk("virtual-bad-template", ["pol co u1 t:/c20/u2/nofile", "do m load,/c20/u1/v1", "pol co u1 t:/c20/odd/v2", "do m load,/c20/u1/v1", "pol co odd t:/c20/odd/a", "do m load,/c20/u1/v1",
+                                    "pol co u1 t:/c20/u2/a", "pol cf u2 err", "do m load,/c20/u1/v1", "do m clone,v4,/c20/u2/b",
+                                    "pol cf u2 s:u2", "do m load,/c20/u1/v1", "do m load,/c20/u1/v1", "do m clone,c1,/c20/u1/v1"])
+        # repaired defect 3: the blueprint's create() makes the cloner lose its euid (reload_object) before the clone is made
+        mk("clone-toctou-reload", ["script /c20/u2/a reload,u1a", "do m load,/c20/u1/a", "do u1a seteuid,s:u1",
+                                   "do u1a clone,c1,/c20/u2/a", "do u1a seteuid,s:u1", "do u1a clone,c1,/c20/u2/a"])
+        mk("clone-toctou-virtual", ["script /c20/u2/a# reload,u1a", "pol co u1 t:/c20/u2/a", "do m load,/c20/u1/a", "do u1a seteuid,s:u1",
+                                    "do u1a clone,c1,/c20/u1/v1", "do u1a seteuid,s:u1", "do u1a clone,c1,/c20/u1/v1"])
+        mk("nested-reload", ["script /c20/u1/a seteuid,s:u1;reload,u2a;reload,u1a;reload,m;load,/c20/u2/b", "script /c20/u2/b reload,u1a;reload,u2a",
+                             "do m load,/c20/u2/a", "do u2a seteuid,s:u2", "do m load,/c20/u1/a"])
         return B
 
     def gen_scripts(self, rng):
@@ -222,7 +249,8 @@ class C20(Prop):
                 elif kind == "export":
                     ops.append("export,%s" % rng.choice(["m", "c1", "c2", "u1a", "u2a", "bba"]))
                 else:
-                    ops.append(rng.choice(["dest,m", "reload,u1a", "load,/c20/u1/nofile", "seteuid,i:7", "dest,u1a"]))
+                    ops.append(rng.choice(["dest,m", "reload,u1a", "reload,u2a", "reload,c1", "reload,bba", "load,/c20/u1/nofile",
+                                           "seteuid,i:7", "dest,u1a"]))
             lines.append("script %s %s" % (k, ";".join(ops)))
         return lines, chain
 
@@ -232,9 +260,16 @@ class C20(Prop):
         lines = []
         objs = {"m": True}            # oid -> probably has an euid
         nclone = [0]
+        nv = [0]
         refuse_default = rng.chance(1, 4)
         if refuse_default:
             lines.append("pol vs * * %s" % rng.choice(["i:0", "none"]))
+        all_paths = ["/c20/%s/%s" % (d, f) for d in DIRS for f in FILES]
+        virt_dirs = []
+        if rng.chance(1, 2):
+            for d in rng.shuffle(DIRS)[:rng.range(1, 2)]:
+                virt_dirs.append(d)
+                lines.append("pol co %s %s" % (d, rng.weighted([("t:" + rng.choice(all_paths), 8), ("none", 1), ("i:3", 1), ("err", 1)])))
         chain = []
         if rng.chance(2, 3):
             sl, chain = self.gen_scripts(rng)
@@ -253,12 +288,18 @@ class C20(Prop):
         def path():
             if rng.chance(1, 25):
                 return "/c20/%s/%s" % (rng.choice(DIRS + ["zz"]), rng.choice(["nofile", "x"]))
+            if virt_dirs and rng.chance(1, 4):
+                return "/c20/%s/v%d" % (rng.choice(virt_dirs), rng.range(1, 3))
             if chain and rng.chance(1, 3):
                 return rng.choice(chain)
             return "/c20/%s/%s" % (rng.choice(DIRS), rng.choice(FILES))
 
         def created(a, p, oid=None):
             d, f = p.split("/")[2:4]
+            if f.startswith("v") and d in virt_dirs and a in objs and objs[a]:
+                nv[0] += 1
+                objs.setdefault("v%d" % nv[0], False)
+                return
             if d in DIRS and f in FILES and a in objs and objs[a]:
                 objs.setdefault(d + f, d == "bb")
                 if oid and oid.startswith("c"):
@@ -274,6 +315,9 @@ class C20(Prop):
 
         nsteps = rng.range(4, 45)
         for _ in range(nsteps):
+            if virt_dirs and rng.chance(1, 30):
+                lines.append("pol co %s %s" % (rng.choice(virt_dirs), rng.choice(["-", "none", "err", "i:0", "t:" + rng.choice(all_paths)])))
+                continue
             if rng.chance(1, 6):
                 if rng.chance(1, 2):
                     lines.append("pol cf %s %s" % (rng.choice(DIRS), rng.choice(CF_SPECS)))
@@ -337,7 +381,7 @@ class C20(Prop):
     def histogram(self, cases, impl):
         h = {"steps": 0, "creations": 0, "cf_error": 0, "late_init": 0, "seteuid_approved": 0, "seteuid_refused": 0,
              "seteuid_zero": 0, "export_ok": 0, "export_refused": 0, "export_error": 0, "noeuid_load_error": 0,
-             "noeuid_clone_error": 0, "nested_ops": 0, "nested_creations": 0, "nested_noeuid_refused": 0, "max_nesting": 0, "backbone_grants": 0, "policy_errors": 0, "nobj": 0, "reloads": 0,
+             "noeuid_clone_error": 0, "compile_object_calls": 0, "virtual_handed_out": 0, "nested_ops": 0, "nested_creations": 0, "nested_noeuid_refused": 0, "max_nesting": 0, "backbone_grants": 0, "policy_errors": 0, "nobj": 0, "reloads": 0,
              "crash": 0}
         for c in cases:
             cur = None
@@ -355,6 +399,8 @@ class C20(Prop):
                     h["max_nesting"] = max(h["max_nesting"], len(stack) - 1)
                     cur = t[2] if len(t) > 2 else ""
                     pend_cf = None
+                elif t[0] == "co":
+                    h["compile_object_calls"] += 1
                 elif t[0] == "cf":
                     pend_cf = t[2] if len(t) > 2 else None
                     if pend_cf == "err":
@@ -373,6 +419,8 @@ class C20(Prop):
                     pend_cf = None
                 elif t[0] == "r" and cur:
                     r = " ".join(t[1:])
+                    if len(r) > 1 and r[0] == "v" and r[1:].isdigit() and not cur.startswith("clone,v"):
+                        h["virtual_handed_out"] += 1
                     if cur.startswith("seteuid,s:"):
                         h["seteuid_approved" if r == "1" else "seteuid_refused"] += 1
                     elif cur == "seteuid,i:0" and r == "1":
